@@ -674,7 +674,11 @@ func (fx *FnExec) execCallWith(st *State, in ssa.CallInstruction, c *ssa.CallCom
 		}
 		if fv.Origin != "" {
 			if con := e.w.spec.Dyn[fv.Origin]; con != nil {
-				return fx.applyContract(st, nil, con, args, sig, rt, pos, fv.Origin)
+				// $fn: the function value being called
+				fx.dynFn = &SV{V: &Val{L: fv.L[:1]}, T: c.Value.Type()}
+				rv := fx.applyContract(st, nil, con, args, sig, rt, pos, fv.Origin)
+				fx.dynFn = nil
+				return rv
 			}
 			e.usedDefault["dyn:"+fv.Origin] = true
 		} else {
@@ -877,7 +881,11 @@ func (fx *FnExec) applyContract0(st *State, callee *ssa.Function, con *FnContrac
 	e := fx.e
 	e.usedContracts[key] = true
 	env := &SpecEnv{e: e, st: st, vars: map[string]*SV{}, pkg: con.Pkg}
+	dynFn := fx.dynFn
 	bindArgs := func(env *SpecEnv) {
+		if dynFn != nil {
+			env.vars["$fn"] = dynFn
+		}
 		// parameter names: from the ssa function when available, else from the contract header
 		if callee != nil && len(callee.Params) == len(args) {
 			for i, p := range callee.Params {
@@ -971,6 +979,13 @@ func (fx *FnExec) applyContract0(st *State, callee *ssa.Function, con *FnContrac
 			}
 		}
 	}
+	// `absmodifies $g`: ghost views that the abstraction clauses (absensures) describe; havocked at the call, not
+	// subject to the frame check of the body
+	for _, g := range con.AbsModifies {
+		for _, k := range e.ghostKeys(g) {
+			e.heapHavoc(st, k)
+		}
+	}
 	// havoc
 	allocBefore := e.heapGet(st, e.keyAlloc())
 	if ws != nil {
@@ -1002,11 +1017,20 @@ func (fx *FnExec) applyContract0(st *State, callee *ssa.Function, con *FnContrac
 	env2 := &SpecEnv{e: e, st: st, old: old, vars: map[string]*SV{}, pkg: con.Pkg}
 	bindArgs(env2)
 	fx.bindResults(env2, con.Results, sig, rv)
-	for _, en := range con.Ensures {
+	for _, en := range append(append([]*Clause{}, con.Ensures...), con.AbsEnsure...) {
+		if strings.Contains(en.Src, "$call(") {
+			// refers to values internal to the callee's body: nothing the caller can use (assume less)
+			continue
+		}
 		nerr := len(e.specErrors)
 		sv := env2.eval(en.Expr)
 		if len(e.specErrors) > nerr && con.Pkg == "extern" {
 			// an assumed clause about packages this module does not import: not applicable here (assume less)
+			e.specErrors = e.specErrors[:nerr]
+			continue
+		}
+		if len(e.specErrors) > nerr && callee != nil && strings.Contains(e.specErrors[len(e.specErrors)-1], "unknown identifier") {
+			// a postcondition about the callee's own locals: it is checked in the callee; nothing a caller can use
 			e.specErrors = e.specErrors[:nerr]
 			continue
 		}
@@ -1349,6 +1373,13 @@ func (fx *FnExec) execBuiltin(st *State, in ssa.CallInstruction, b *ssa.Builtin,
 			}
 			e.assume(st, fmt.Sprintf("(forall ((j!q Int)) (! (and (=> (and (<= 0 j!q) (< j!q %s)) (= (select %s j!q) %s)) (=> (and (<= %s j!q) (< j!q %s)) (= (select %s j!q) (select (select %s %s) (+ %s (- j!q %s)))))) :pattern ((select %s j!q))%s))",
 				n1, na, srcA, n1, nl, na, hb, b2.L[0], b2.L[1], n1, na, extraPat))
+			if a.L[1] != "0" {
+				// symbolic offset: the same fact indexed by the absolute source position, so that a known source
+				// element (e.g. the witness of an invariant's exists) finds its new index
+				srcP := fmt.Sprintf("(select (select %s %s) p!q)", ha, a.L[0])
+				e.assume(st, fmt.Sprintf("(forall ((p!q Int)) (! (=> (and (<= %s p!q) (< p!q (+ %s %s))) (= (select %s (- p!q %s)) %s)) :pattern (%s)))",
+					a.L[1], a.L[1], n1, na, a.L[1], srcP, srcP))
+			}
 			// the appended elements, by position (common case: one element)
 			if isNumLit(n2) {
 				var cnt int
